@@ -49,11 +49,14 @@ func (x *Exec) ghostAtX(st *State, fi int, anchor, when string, res *Value, extr
 	if c == nil {
 		c = x.contractFor(fr.fn)
 	}
+	if c == nil {
+		c = x.inheritedContract(st, fi, anchor)
+	}
 	if c == nil || len(c.Ghosts) == 0 {
 		return
 	}
 	for _, g := range c.Ghosts {
-		if g.Anchor != anchor {
+		if !anchorMatches(g.Anchor, anchor) {
 			continue
 		}
 		if (g.When == "before") != (when == "before") {
@@ -84,10 +87,13 @@ func (x *Exec) ghostAtVals(st *State, fi int, anchor string, vals map[string]Val
 		c = x.contractFor(fr.fn)
 	}
 	if c == nil {
+		c = x.inheritedContract(st, fi, anchor)
+	}
+	if c == nil {
 		return
 	}
 	for _, g := range c.Ghosts {
-		if g.Anchor != anchor {
+		if !anchorMatches(g.Anchor, anchor) {
 			continue
 		}
 		x.usedGhost[fmt.Sprintf("%s:%d", c.Key, g.Line)] = true
@@ -153,12 +159,16 @@ func (x *Exec) ghostStmtEnv(st *State, fi int, c *Contract, g *GhostStmt, s stri
 					}
 				}
 				x.errorf("ghost statement (%s line %d): %s", c.Key, g.Line, se.msg)
+				if st.taint == "" {
+					st.taint = fmt.Sprintf("ghost statement line %d could not be evaluated: %s", g.Line, se.msg)
+				}
 				return
 			}
 			panic(r)
 		}
 	}()
 	env := x.envFor(st, fi, true)
+	env.outer1 = x.enclosingFrame(st, fi) + 1
 	env.where = fmt.Sprintf("ghost at %s", g.Anchor)
 	for k, v := range vals {
 		env.vars[k] = v
@@ -251,3 +261,104 @@ func (x *Exec) emit(st *State, ev Term, cond Term) {
 }
 
 var anyType = types.Universe.Lookup("any").Type()
+
+// anchorMatches: a ghost anchor without an ordinal ("return", "call Send")
+// stands for every site of that kind; with one ("return#2") for that site.
+func anchorMatches(spec, site string) bool {
+	if spec == site {
+		return true
+	}
+	return !strings.Contains(spec, "#") && strings.HasPrefix(site, spec+"#")
+}
+
+// A repository function without a contract that is inlined into a function
+// under contract (typically a helper a refactoring extracted from it) is
+// treated as part of that function: ghost anchors and loop contracts for which
+// the enclosing function itself has no site any more apply to the helper's
+// sites, and names the helper does not have resolve in the enclosing frame.
+func (x *Exec) enclosingFrame(st *State, fi int) int {
+	if fi <= 0 || fi >= len(st.frames) {
+		return -1
+	}
+	fr := st.frames[fi]
+	if fr.contract != nil || fr.fn.Parent() != nil || x.contractFor(fr.fn) != nil {
+		return -1
+	}
+	for j := fi - 1; j >= 0; j-- {
+		f := st.frames[j]
+		if f.contract != nil || x.contractFor(f.fn) != nil {
+			return j
+		}
+		if f.fn.Parent() != nil {
+			return -1
+		}
+	}
+	return -1
+}
+
+func (x *Exec) frameContract(fr *Frame) *Contract {
+	if fr.contract != nil {
+		return fr.contract
+	}
+	return x.contractFor(fr.fn)
+}
+
+func (x *Exec) inheritedContract(st *State, fi int, anchor string) *Contract {
+	j := x.enclosingFrame(st, fi)
+	if j < 0 {
+		return nil
+	}
+	if x.hasAnchorSite(st.frames[j].fn, anchor) {
+		return nil
+	}
+	return x.frameContract(st.frames[j])
+}
+
+// hasAnchorSite: does fn itself contain a site the anchor could name?
+func (x *Exec) hasAnchorSite(fn *ssa.Function, anchor string) bool {
+	kind, ord := anchor, 1
+	if i := strings.LastIndex(anchor, "#"); i >= 0 {
+		kind = anchor[:i]
+		fmt.Sscanf(anchor[i+1:], "%d", &ord)
+	}
+	n := 0
+	for _, b := range fn.Blocks {
+		for _, in := range b.Instrs {
+			switch t := in.(type) {
+			case *ssa.Call:
+				if strings.HasPrefix(kind, "call ") && x.calleeName(&t.Call, Value{}) == kind[5:] {
+					n++
+				}
+			case *ssa.Defer:
+				if strings.HasPrefix(kind, "call ") && x.calleeName(&t.Call, Value{}) == kind[5:] {
+					n++
+				}
+			case *ssa.Go:
+				if strings.HasPrefix(kind, "call ") && x.calleeName(&t.Call, Value{}) == kind[5:] {
+					n++
+				}
+			case *ssa.MapUpdate:
+				if kind == "mapupdate" {
+					n++
+				}
+			case *ssa.Store:
+				switch a := t.Addr.(type) {
+				case *ssa.IndexAddr:
+					if kind == "storeelem" {
+						n++
+					}
+				case *ssa.FieldAddr:
+					if strings.HasPrefix(kind, "store ") {
+						if s, ok := structOf(a.X.Type()); ok && s.Field(a.Field).Name() == kind[6:] {
+							n++
+						}
+					}
+				}
+			}
+		}
+	}
+	if !strings.HasPrefix(kind, "call ") && kind != "mapupdate" && kind != "storeelem" && !strings.HasPrefix(kind, "store ") {
+		return true // only these kinds of site are handed down to helpers
+	}
+	return n >= ord
+}
